@@ -281,6 +281,14 @@ func (f *Frame) closeLoop(li *loopInfo, st *State, cond string) {
 				f.unbound("inv-keep"+inv.Tag()+"/"+f.loopName(li), inv, err)
 				continue
 			}
+			if inv.Split > 0 {
+				if pcs := f.pathConds(c.curBlk, inv.Split); len(pcs) > 1 {
+					for k, pc := range pcs {
+						f.oblige(fmt.Sprintf("inv-keep%s/%s@path%d", inv.Tag(), f.loopName(li), k+1), inv, "(and "+cond+" "+pc+")", g)
+					}
+					continue
+				}
+			}
 			f.oblige("inv-keep"+inv.Tag()+"/"+f.loopName(li), inv, cond, g)
 		}
 		for _, tr := range li.lc.Transitions {
